@@ -78,6 +78,13 @@ class Eff(pyexpr.Tr):
             if e.attr in m:
                 return m[e.attr]
             raise U(f"self.{e.attr}")
+        if isinstance(e, ast.Attribute) and e.attr == "agents" and not (isinstance(e.value, ast.Name) and e.value.id == "self"):
+            t, k = self.expr(e.value)
+            if k != "ocell":
+                raise U("agents of something that is not an optional cell")
+            self.fresh += 1
+            c = f"c_{self.fresh}"
+            return f"(match {t} with Some {c} => gen_cell_agents s {c} | None => [] end)", "list"
         if isinstance(e, ast.Attribute) and e.attr == "is_empty":
             t, k = self.expr(e.value)
             if k != "Z":
@@ -119,6 +126,9 @@ class Eff(pyexpr.Tr):
                 sym = {ast.Lt: "<?", ast.LtE: "<=?", ast.Gt: ">?", ast.GtE: ">=?"}.get(op)
                 if sym:
                     return f"({a} {sym} CS.opt_val {b})", "bool"
+            if ka == "Z" and kb == "list" and op in (ast.In, ast.NotIn):
+                t = f"(CS.memz {a} {b})"
+                return (t if op is ast.In else f"(negb {t})"), "bool"
             if ka == "name" and kb == "dirmap" and op in (ast.In, ast.NotIn):
                 t = f"(CS.dir_mem {b} {a})"
                 return (t if op is ast.In else f"(negb {t})"), "bool"
